@@ -164,6 +164,23 @@ func genLispValue(r *common.Rng, depth int, hist func(string)) slip.Object {
 	return out
 }
 
+// hasEdgeInt: fixnums the parser reads back as json.Number (known finding C18-int64-edge-becomes-number)
+func hasEdgeInt(o slip.Object) bool {
+	switch to := o.(type) {
+	case slip.Fixnum:
+		return int64(to) >= 9223372036854775800 || int64(to) == -9223372036854775808
+	case slip.List:
+		for _, e := range to {
+			if hasEdgeInt(e) {
+				return true
+			}
+		}
+	case slip.Tail:
+		return hasEdgeInt(to.Value)
+	}
+	return false
+}
+
 // ---- paths ---------------------------------------------------------------------------------------
 
 type frag struct {
@@ -231,9 +248,140 @@ func pathString(r *common.Rng, p []frag) string {
 	return b.String()
 }
 
+type located struct {
+	path []frag
+	node any
+}
+
+// allNodes lists every node of doc with the concrete path to it.
+func allNodes(doc any) []located {
+	var out []located
+	var walk func(p []frag, v any)
+	walk = func(p []frag, v any) {
+		out = append(out, located{append([]frag(nil), p...), v})
+		switch tv := v.(type) {
+		case []any:
+			for i, e := range tv {
+				walk(append(p, frag{kind: 'i', idx: i}), e)
+			}
+		case map[string]any:
+			for _, k := range common.SortedKeys(tv) {
+				walk(append(p, frag{kind: 'k', key: k}), tv[k])
+			}
+		}
+	}
+	walk(nil, doc)
+	return out
+}
+
+func nChildren(v any) int {
+	switch tv := v.(type) {
+	case []any:
+		return len(tv)
+	case map[string]any:
+		return len(tv)
+	}
+	return -1
+}
+
+// negate rewrites some indices of a concrete path of doc as indices from the end.
+func negate(r *common.Rng, doc any, p []frag) []frag {
+	out := append([]frag(nil), p...)
+	cur := doc
+	for i, f := range out {
+		switch tc := cur.(type) {
+		case []any:
+			if f.kind == 'i' && f.idx >= 0 && f.idx < len(tc) {
+				cur = tc[f.idx]
+				if r.Chance(35) {
+					out[i].idx = f.idx - len(tc)
+				}
+				continue
+			}
+		case map[string]any:
+			if f.kind == 'k' {
+				cur = tc[f.key]
+				continue
+			}
+		}
+		break
+	}
+	return out
+}
+
+// genTargetPath aims at something specific in doc: a null / false / empty-container node (where has and get
+// differ most easily), any node, or all children of a container with several children (wildcard last or
+// followed by one more fragment).
+func genTargetPath(r *common.Rng, doc any, allowMulti bool, hist func(string)) []frag {
+	nodes := allNodes(doc)
+	if len(nodes) <= 1 {
+		return nil
+	}
+	if allowMulti && r.Chance(45) {
+		var big []located
+		for _, n := range nodes {
+			if nChildren(n.node) >= 2 {
+				big = append(big, n)
+			}
+		}
+		if len(big) > 0 {
+			n := common.Pick(r, big)
+			p := append(negate(r, doc, n.path), frag{kind: '*'})
+			hist("target:wildcard-over-several")
+			if r.Chance(40) {
+				// one more fragment that exists below some child
+				var below []frag
+				for _, m := range nodes {
+					if len(m.path) == len(n.path)+2 {
+						same := true
+						for i := range n.path {
+							if m.path[i] != n.path[i] {
+								same = false
+							}
+						}
+						if same {
+							below = append(below, m.path[len(m.path)-1])
+						}
+					}
+				}
+				if len(below) > 0 {
+					p = append(p, common.Pick(r, below))
+				}
+			}
+			return p
+		}
+	}
+	var special []located
+	for _, n := range nodes[1:] {
+		switch tv := n.node.(type) {
+		case nil:
+			special = append(special, n)
+		case bool:
+			if !tv {
+				special = append(special, n)
+			}
+		default:
+			if nChildren(n.node) == 0 {
+				special = append(special, n)
+			}
+		}
+	}
+	if len(special) > 0 && r.Chance(60) {
+		hist("target:null-false-empty")
+		return negate(r, doc, common.Pick(r, special).path)
+	}
+	hist("target:node")
+	return negate(r, doc, nodes[1+r.Intn(len(nodes)-1)].path)
+}
+
 // genPath walks down doc: mostly existing members (indices also counted from the end), sometimes a missing
 // key, an index out of range, a fragment of the wrong kind, a wildcard or a descent.
 func genPath(r *common.Rng, doc any, allowMulti, mutating bool, hist func(string)) []frag {
+	if r.Chance(35) {
+		if p := genTargetPath(r, doc, allowMulti, hist); p != nil {
+			return p
+		}
+	}
 	var p []frag
 	cur := doc
 	exists := true
@@ -370,7 +518,7 @@ type stepRec struct {
 func (h *harness) pathStream(nHist int) {
 	ctx := h.ctx
 	for k := 0; k < nHist; k++ {
-		o := genOpts{maxDepth: 4, bigNums: ctx.Rng.Chance(30), floats: true, simpleKeys: true}
+		o := genOpts{maxDepth: 4, bigNums: ctx.Rng.Chance(30), floats: true, simpleKeys: true, moreNulls: true}
 		doc := genDoc(ctx.Rng, o, 1+ctx.Rng.Intn(4), ctx.Hist)
 		if ctx.Rng.Chance(4) {
 			doc = genScalar(ctx.Rng, o, ctx.Hist) // a bag holding a scalar or nothing
@@ -422,7 +570,12 @@ func (h *harness) pathStream(nHist int) {
 				}
 				valShown = slip.ObjectString(v)
 				opTerm = fmt.Sprintf("(OSet %s %s)", fragsTerm(p), vt)
-				if ctx.Rng.Chance(25) {
+				_, isStr := v.(slip.String)
+				if ctx.Rng.Chance(12) && !isStr && !hasEdgeInt(v) {
+					// the same through the text: parse the JSON text of the value at the path
+					lisp = "(bag-parse b (bag-write (make-bag val) :pretty nil :depth 0 :json t) " + pathArg(p) + ")"
+					ctx.Hist("op:parse-at-path")
+				} else if ctx.Rng.Chance(25) {
 					lisp = "(send b :set val " + pathArg(p) + ")"
 				} else {
 					lisp = "(bag-set b val " + pathArg(p) + ")"
